@@ -187,6 +187,74 @@ Proof.
   unfold pad16. destruct (N.eqb_spec (f mod 16) 0) as [E|E]; split; try lia.
 Qed.
 
+Lemma take_s_app (a b : list N) n : length a = n -> take_s n (a ++ b) = Some (a, b).
+Proof.
+  intros <-. unfold take_s. rewrite app_length.
+  destruct (Nat.leb_spec (length a) (length a + length b)); [|lia].
+  rewrite firstn_app_exact, skipn_app_exact. reflexivity.
+Qed.
+
+Definition frame_header (fsize : N) : list N := put_uint24 fsize ++ zero_header ++ repeat 0 10.
+Definition frame_data (code : N) (data : list N) : list N :=
+  enc_uint code ++ data ++ repeat 0 (N.to_nat (pad16 (int_size code + lenN data))).
+
+Lemma frame_header_len f : length (frame_header f) = 16%nat.
+Proof. reflexivity. Qed.
+
+Lemma frame_data_len code data : code < 2 ^ 64 ->
+  length (frame_data code data) =
+  N.to_nat (int_size code + lenN data + pad16 (int_size code + lenN data)).
+Proof.
+  intros Hc. unfold frame_data. rewrite !app_length, repeat_length.
+  rewrite (int_size_len code Hc). unfold lenN. lia.
+Qed.
+
+Lemma frame_data_prefix code data : code < 2 ^ 64 ->
+  firstn (N.to_nat (int_size code + lenN data)) (frame_data code data) = enc_uint code ++ data.
+Proof.
+  intros Hc. unfold frame_data. rewrite app_assoc.
+  replace (N.to_nat (int_size code + lenN data)) with (length (enc_uint code ++ data)).
+  - apply firstn_app_exact.
+  - rewrite app_length, (int_size_len code Hc). unfold lenN. lia.
+Qed.
+
+(* replace the byte at index i *)
+Fixpoint upd (i : nat) (v : N) (l : list N) : list N :=
+  match l with
+  | [] => []
+  | x :: r => match i with O => v :: r | S j => x :: upd j v r end
+  end.
+
+Lemma upd_length i v l : length (upd i v l) = length l.
+Proof. revert i; induction l as [|x l IH]; intros [|i]; cbn; auto. Qed.
+
+Lemma upd_app_l i v a b : (i < length a)%nat -> upd i v (a ++ b) = upd i v a ++ b.
+Proof.
+  revert i; induction a as [|x a IH]; intros i H; [cbn in H; lia|].
+  destruct i; [reflexivity|]. cbn in H. cbn [app upd]. rewrite IH by lia. reflexivity.
+Qed.
+
+Lemma upd_app_r i v a b : (length a <= i)%nat -> upd i v (a ++ b) = a ++ upd (i - length a) v b.
+Proof.
+  revert i; induction a as [|x a IH]; intros i H.
+  - cbn. now rewrite Nat.sub_0_r.
+  - destruct i; [cbn in H; lia|]. cbn in H. cbn [app upd length Nat.sub].
+    rewrite IH by lia. reflexivity.
+Qed.
+
+Lemma upd_neq i v l : (i < length l)%nat -> v <> nth i l 0 -> upd i v l <> l.
+Proof.
+  revert i; induction l as [|x l IH]; intros i H Hv; cbn in *; [lia|].
+  destruct i.
+  - intros E. inversion E. contradiction.
+  - intros E. inversion E as [E']. revert E'. apply IH; [lia|exact Hv].
+Qed.
+
+(* the MAC hypothesis, pointwise: the honest MAC input x has no second preimage
+   of the same length under the tag function of the current MAC state *)
+Definition second_preimage_free (tag : list N -> list N) (x : list N) : Prop :=
+  forall y, length y = length x -> tag y = tag x -> y = x.
+
 (* ================================================================= *)
 Section FramingProofs.
 Variable cst : Type.
@@ -199,6 +267,8 @@ Variable snappy_enc : list N -> list N.
 Variable snappy_declen : list N -> option N.
 Variable snappy_dec : list N -> option (list N).
 Variable newcap : nat -> nat -> nat.
+Collection Vars := cst cnext hst hwrite hsum blk snappy_enc snappy_declen snappy_dec newcap.
+Set Default Proof Using "Vars".
 
 Local Notation xor_ks := (xor_ks cst cnext).
 Local Notation compute_header := (compute_header hst hwrite hsum blk).
@@ -222,14 +292,16 @@ Definition frame_tag (m : hst) (fc : list N) : list N := snd (compute_frame m fc
 
 (* ---- the stream cipher: XOR with the same keystream twice is the identity ---- *)
 Lemma xor_ks_length d : forall c, length (fst (xor_ks c d)) = length d.
-Proof.
+Proof using cst cnext.
+  try clear newcap_ge; try clear hsum_len; try clear snappy_dec_enc; try clear snappy_declen_enc; try clear cnext_byte; try clear snappy_dec_len.
   induction d as [|b d IH]; intros c; cbn [Rlpx.xor_ks]; [reflexivity|].
   destruct (cnext c) as [k c1]. specialize (IH c1).
   destruct (xor_ks c1 d) as [out c2]. cbn in *. congruence.
 Qed.
 
 Lemma xor_involutive d : forall c, xor_ks c (fst (xor_ks c d)) = (d, snd (xor_ks c d)).
-Proof.
+Proof using cst cnext.
+  try clear newcap_ge; try clear hsum_len; try clear snappy_dec_enc; try clear snappy_declen_enc; try clear cnext_byte; try clear snappy_dec_len.
   induction d as [|b d IH]; intros c; cbn [Rlpx.xor_ks]; [reflexivity|].
   destruct (cnext c) as [k c1] eqn:Ec. specialize (IH c1).
   destruct (xor_ks c1 d) as [out c2] eqn:Ed. cbn [fst snd] in *.
@@ -246,7 +318,8 @@ Lemma rb_read_take b fr n : rb_wf b ->
   | Bad e, None => norm_err e = EConnEOF
   | _, _ => False
   end.
-Proof.
+Proof using Vars newcap_ge.
+  try clear hsum_len; try clear snappy_dec_enc; try clear snappy_declen_enc; try clear cnext_byte; try clear snappy_dec_len.
   intros W. pose proof (rb_read_spec newcap newcap_ge b fr n W) as S. unfold take_s.
   destruct (rb_read newcap b fr n) as [[[out b'] fr']|e].
   - destruct S as (H1 & H2 & H3 & H4).
@@ -269,7 +342,8 @@ Definition sim_frame (x : rres (list N * rstate cst hst * conn))
 Lemma read_frame_stream r fr : rb_wf (r_buf _ _ r) ->
   sim_frame (read_frame r fr)
             (read_frame_s (mks (r_dec _ _ r) (r_mac _ _ r)) (rb_rem (r_buf _ _ r) fr)).
-Proof.
+Proof using Vars newcap_ge.
+  try clear hsum_len; try clear snappy_dec_enc; try clear snappy_declen_enc; try clear cnext_byte; try clear snappy_dec_len.
   intros W. unfold Rlpx.read_frame, Rlpx.read_frame_s. cbn [s_dec s_mac].
   pose proof (rb_read_take (rb_reset (r_buf _ _ r)) fr 32 (rb_reset_wf _ W)) as T1.
   rewrite rb_reset_rem in T1.
@@ -308,7 +382,8 @@ Definition sim_msg (x : rres (msg * rstate cst hst * conn))
 Lemma conn_read_stream sn r fr : rb_wf (r_buf _ _ r) ->
   sim_msg (conn_read sn r fr)
           (conn_read_s sn (mks (r_dec _ _ r) (r_mac _ _ r)) (rb_rem (r_buf _ _ r) fr)).
-Proof.
+Proof using Vars newcap_ge.
+  try clear hsum_len; try clear snappy_dec_enc; try clear snappy_declen_enc; try clear cnext_byte; try clear snappy_dec_len.
   intros W. unfold Rlpx.conn_read, Rlpx.conn_read_s.
   pose proof (read_frame_stream r fr W) as S. unfold sim_frame in S.
   destruct (read_frame r fr) as [[[f r'] fr']|e];
@@ -324,7 +399,8 @@ Qed.
 Lemma read_until_stream k sn : forall r fr, rb_wf (r_buf _ _ r) ->
   norm_res (read_until k sn r fr) =
   read_until_s k sn (mks (r_dec _ _ r) (r_mac _ _ r)) (rb_rem (r_buf _ _ r) fr).
-Proof.
+Proof using Vars newcap_ge.
+  try clear hsum_len; try clear snappy_dec_enc; try clear snappy_declen_enc; try clear cnext_byte; try clear snappy_dec_len.
   induction k as [|k IH]; intros r fr W; [reflexivity|].
   cbn [Rlpx.read_until Rlpx.read_until_s].
   pose proof (conn_read_stream sn r fr W) as S. unfold sim_msg in S.
@@ -342,7 +418,718 @@ Qed.
 Lemma chunk_independent k sn c m b1 fr1 b2 fr2 :
   rb_wf b1 -> rb_wf b2 -> rb_rem b1 fr1 = rb_rem b2 fr2 ->
   norm_res (read_until k sn (mkr c m b1) fr1) = norm_res (read_until k sn (mkr c m b2) fr2).
-Proof.
+Proof using Vars newcap_ge.
+  try clear hsum_len; try clear snappy_dec_enc; try clear snappy_declen_enc; try clear cnext_byte; try clear snappy_dec_len.
   intros W1 W2 E. rewrite (read_until_stream k sn (mkr c m b1) fr1 W1).
   rewrite (read_until_stream k sn (mkr c m b2) fr2 W2). cbn. rewrite E. reflexivity.
+Qed.
+
+(* ---- what a written frame consists of ---- *)
+
+
+Lemma write_frame_parts w code data w' wire :
+  write_frame w code data = Good (w', wire) ->
+  exists c1 m1 hc hm fc fm,
+    int_size code + lenN data <= max_uint24 /\
+    xor_ks (w_enc _ _ w) (frame_header (int_size code + lenN data)) = (hc, c1) /\
+    compute_header (w_mac _ _ w) hc = (m1, hm) /\
+    xor_ks c1 (frame_data code data) = (fc, w_enc _ _ w') /\
+    compute_frame m1 fc = (w_mac _ _ w', fm) /\
+    wire = hc ++ hm ++ fc ++ fm.
+Proof.
+  try clear newcap_ge; try clear hsum_len; try clear snappy_dec_enc; try clear snappy_declen_enc; try clear cnext_byte; try clear snappy_dec_len.
+  unfold Rlpx.write_frame, frame_header, frame_data.
+  destruct (N.ltb_spec max_uint24 (int_size code + lenN data)) as [|Hle]; [discriminate|].
+  destruct (xor_ks (w_enc _ _ w) _) as [hc c1] eqn:E1.
+  destruct (compute_header (w_mac _ _ w) hc) as [m1 hm] eqn:E2.
+  destruct (xor_ks c1 _) as [fc c2] eqn:E3.
+  destruct (compute_frame m1 fc) as [m2 fm] eqn:E4.
+  intros H. inversion H; subst. cbn.
+  exists c1, m1, hc, hm, fc, fm. auto 10.
+Qed.
+
+Hypothesis hsum_len : forall m, length (hsum m) = 32%nat.
+
+Lemma header_tag_len m hc : length (header_tag m hc) = 16%nat.
+Proof using Vars hsum_len.
+  try clear newcap_ge; try clear snappy_dec_enc; try clear snappy_declen_enc; try clear cnext_byte; try clear snappy_dec_len.
+  unfold header_tag, Rlpx.compute_header, mac_compute. cbv zeta. cbn [snd].
+  rewrite firstn_length, hsum_len. reflexivity.
+Qed.
+
+Lemma frame_tag_len m fc : length (frame_tag m fc) = 16%nat.
+Proof using Vars hsum_len.
+  try clear newcap_ge; try clear snappy_dec_enc; try clear snappy_declen_enc; try clear cnext_byte; try clear snappy_dec_len.
+  unfold frame_tag, Rlpx.compute_frame, mac_compute. cbv zeta. cbn [snd].
+  rewrite firstn_length, hsum_len. reflexivity.
+Qed.
+
+
+
+
+(* the wire length of a frame *)
+Lemma write_frame_len w code data w' wire : code < 2 ^ 64 ->
+  write_frame w code data = Good (w', wire) ->
+  lenN wire = frame_wire_len (int_size code + lenN data).
+Proof using Vars hsum_len.
+  try clear newcap_ge; try clear snappy_dec_enc; try clear snappy_declen_enc; try clear cnext_byte; try clear snappy_dec_len.
+  intros Hc H. destruct (write_frame_parts _ _ _ _ _ H) as (c1 & m1 & hc & hm & fc & fm & Hle & E1 & E2 & E3 & E4 & ->).
+  pose proof (xor_ks_length (frame_header (int_size code + lenN data)) (w_enc _ _ w)) as L1.
+  rewrite E1 in L1. cbn in L1.
+  pose proof (xor_ks_length (frame_data code data) c1) as L3. rewrite E3 in L3. cbn [fst] in L3.
+  rewrite (frame_data_len code data Hc) in L3.
+  assert (L2 : length hm = 16%nat) by (replace hm with (header_tag (w_mac _ _ w) hc); [apply header_tag_len|unfold header_tag; now rewrite E2]).
+  assert (L4 : length fm = 16%nat) by (replace fm with (frame_tag m1 fc); [apply frame_tag_len|unfold frame_tag; now rewrite E4]).
+  unfold frame_wire_len. unfold lenN in *. rewrite !app_length, L1, L2, L3, L4. lia.
+Qed.
+
+(* ---- reading back one written frame from the stream ---- *)
+Lemma read_frame_s_write w code data w' wire rest : code < 2 ^ 64 ->
+  write_frame w code data = Good (w', wire) ->
+  read_frame_s (mks (w_enc _ _ w) (w_mac _ _ w)) (wire ++ rest) =
+  Good (enc_uint code ++ data, mks (w_enc _ _ w') (w_mac _ _ w'), rest).
+Proof using Vars hsum_len.
+  try clear newcap_ge; try clear snappy_dec_enc; try clear snappy_declen_enc; try clear cnext_byte; try clear snappy_dec_len.
+  intros Hc H. destruct (write_frame_parts _ _ _ _ _ H) as (c1 & m1 & hc & hm & fc & fm & Hle & E1 & E2 & E3 & E4 & ->).
+  set (fsize := int_size code + lenN data) in *.
+  pose proof (xor_ks_length (frame_header fsize) (w_enc _ _ w)) as L1.
+  rewrite E1 in L1. cbn in L1.
+  pose proof (xor_ks_length (frame_data code data) c1) as L3. rewrite E3 in L3. cbn [fst] in L3.
+  rewrite (frame_data_len code data Hc) in L3. fold fsize in L3.
+  assert (L2 : length hm = 16%nat) by (replace hm with (header_tag (w_mac _ _ w) hc); [apply header_tag_len|unfold header_tag; now rewrite E2]).
+  assert (L4 : length fm = 16%nat) by (replace fm with (frame_tag m1 fc); [apply frame_tag_len|unfold frame_tag; now rewrite E4]).
+  pose proof (xor_involutive (frame_header fsize) (w_enc _ _ w)) as I1. rewrite E1 in I1. cbn [fst snd] in I1.
+  pose proof (xor_involutive (frame_data code data) c1) as I3. rewrite E3 in I3. cbn [fst snd] in I3.
+  unfold Rlpx.read_frame_s. cbn [s_dec s_mac].
+  replace ((hc ++ hm ++ fc ++ fm) ++ rest) with ((hc ++ hm) ++ fc ++ fm ++ rest)
+    by (rewrite <- !app_assoc; reflexivity).
+  rewrite (take_s_app (hc ++ hm)) by (rewrite app_length; lia).
+  assert (F1 : firstn 16 (hc ++ hm) = hc) by (rewrite <- L1; apply firstn_app_exact).
+  assert (F2 : skipn 16 (hc ++ hm) = hm) by (rewrite <- L1; apply skipn_app_exact).
+  rewrite F1, F2.
+  rewrite E2, bytes_eqb_refl. cbn [negb]. rewrite I1.
+  unfold frame_header at 1. rewrite (read_put_uint24 fsize _ Hle).
+  rewrite (take_s_app fc) by exact L3. rewrite (take_s_app fm) by exact L4.
+  rewrite E4, bytes_eqb_refl. cbn [negb]. rewrite I3.
+  unfold fsize. rewrite (frame_data_prefix code data Hc). reflexivity.
+Qed.
+
+(* ---- Conn.Write then Conn.Read ---- *)
+Hypothesis snappy_dec_enc : forall d, snappy_dec (snappy_enc d) = Some d.
+Hypothesis snappy_declen_enc : forall d, snappy_declen (snappy_enc d) = Some (lenN d).
+
+Lemma conn_read_s_write sn w code data w' wire wsz rest : code < 2 ^ 64 ->
+  conn_write sn w code data = Good (w', wire, wsz) ->
+  conn_read_s sn (mks (w_enc _ _ w) (w_mac _ _ w)) (wire ++ rest) =
+  Good ((code, data, wsz), mks (w_enc _ _ w') (w_mac _ _ w'), rest).
+Proof using Vars hsum_len snappy_dec_enc snappy_declen_enc.
+  try clear newcap_ge; try clear cnext_byte; try clear snappy_dec_len.
+  intros Hc. unfold Rlpx.conn_write.
+  destruct (N.ltb_spec max_uint24 (lenN data)) as [|Hle]; [discriminate|].
+  destruct (write_frame w code (if sn then snappy_enc data else data)) as [[w1 wire1]|] eqn:E;
+    [|discriminate].
+  intros H. inversion H; subst. unfold Rlpx.conn_read_s.
+  rewrite (read_frame_s_write _ _ _ _ _ rest Hc E).
+  rewrite (split_uint64_complete code _ Hc).
+  destruct sn; [|reflexivity].
+  rewrite snappy_declen_enc.
+  destruct (N.ltb_spec max_uint24 (lenN data)); [lia|].
+  rewrite snappy_dec_enc. reflexivity.
+Qed.
+
+Fixpoint delivered (ms : list (N * list N)) (wszs : list N) : list msg :=
+  match ms, wszs with
+  | (c, d) :: r, z :: zs => (c, d, z) :: delivered r zs
+  | _, _ => []
+  end.
+
+Definition codes_ok (ms : list (N * list N)) : Prop := Forall (fun m => fst m < 2 ^ 64) ms.
+
+Lemma read_until_s_app sn : forall ms w w' wire wszs k rest,
+  codes_ok ms -> write_msgs sn w ms = Good (w', wire, wszs) ->
+  read_until_s (length ms + k) sn (mks (w_enc _ _ w) (w_mac _ _ w)) (wire ++ rest) =
+  (delivered ms wszs ++ fst (read_until_s k sn (mks (w_enc _ _ w') (w_mac _ _ w')) rest),
+   snd (read_until_s k sn (mks (w_enc _ _ w') (w_mac _ _ w')) rest)).
+Proof using Vars hsum_len snappy_dec_enc snappy_declen_enc.
+  try clear newcap_ge; try clear cnext_byte; try clear snappy_dec_len.
+  induction ms as [|[code data] ms IH]; intros w w' wire wszs k rest Hok H.
+  - cbn in H. inversion H; subst. cbn.
+    destruct (read_until_s k sn _ rest). reflexivity.
+  - cbn [Rlpx.write_msgs] in H. inversion Hok as [|? ? Hc Hok']; subst. cbn [fst] in Hc.
+    destruct (conn_write sn w code data) as [[[w1 wire1] wsz]|] eqn:E1; [|discriminate].
+    destruct (write_msgs sn w1 ms) as [[[w2 wires] wszs']|] eqn:E2; [|discriminate].
+    inversion H; subst.
+    cbn [length Nat.add Rlpx.read_until_s]. rewrite <- app_assoc.
+    rewrite (conn_read_s_write sn w code data w1 wire1 wsz (wires ++ rest) Hc E1).
+    rewrite (IH w1 w' wires wszs' k rest Hok' E2).
+    cbn [delivered fst snd app]. reflexivity.
+Qed.
+
+Lemma read_frame_s_nil r : read_frame_s r [] = Bad EConnEOF.
+Proof. reflexivity. Qed.
+
+(* THE delivery theorem: any number of messages, any fragmentation of the byte
+   stream, any buffer capacity policy *)
+Lemma read_write_frames sn ms w w' wire wszs b fr :
+  codes_ok ms -> write_msgs sn w ms = Good (w', wire, wszs) ->
+  rb_wf b -> rb_rem b fr = wire ->
+  norm_res (read_until (S (length ms)) sn (mkr (w_enc _ _ w) (w_mac _ _ w) b) fr) =
+  (delivered ms wszs, Some EConnEOF).
+Proof using Vars newcap_ge hsum_len snappy_dec_enc snappy_declen_enc.
+  try clear cnext_byte; try clear snappy_dec_len.
+  intros Hok H W E.
+  rewrite (read_until_stream (S (length ms)) sn (mkr (w_enc _ _ w) (w_mac _ _ w) b) fr W).
+  cbn [r_dec r_mac r_buf]. rewrite E.
+  replace (S (length ms)) with (length ms + 1)%nat by lia.
+  rewrite <- (app_nil_r wire).
+  rewrite (read_until_s_app sn ms w w' wire wszs 1 [] Hok H).
+  cbn. rewrite app_nil_r. reflexivity.
+Qed.
+
+(* ---- tampering ---- *)
+Lemma bad_header_mac c m hc hm tail :
+  length hc = 16%nat -> length hm = 16%nat -> header_tag m hc <> hm ->
+  read_frame_s (mks c m) (hc ++ hm ++ tail) = Bad EBadHeaderMAC.
+Proof.
+  try clear newcap_ge; try clear hsum_len; try clear snappy_dec_enc; try clear snappy_declen_enc; try clear cnext_byte; try clear snappy_dec_len.
+  intros L1 L2 Hne. unfold Rlpx.read_frame_s. cbn [s_dec s_mac].
+  replace (hc ++ hm ++ tail) with ((hc ++ hm) ++ tail) by (rewrite <- app_assoc; reflexivity).
+  rewrite (take_s_app (hc ++ hm)) by (rewrite app_length; lia).
+  assert (F1 : firstn 16 (hc ++ hm) = hc) by (rewrite <- L1; apply firstn_app_exact).
+  assert (F2 : skipn 16 (hc ++ hm) = hm) by (rewrite <- L1; apply skipn_app_exact).
+  rewrite F1, F2. unfold header_tag in Hne.
+  destruct (compute_header m hc) as [m1 want]. cbn [snd] in Hne.
+  rewrite (bytes_eqb_neq _ _ Hne). reflexivity.
+Qed.
+
+Lemma bad_frame_mac c m hc hm fc fm rest m1 header c1 fsize :
+  length hc = 16%nat -> length hm = 16%nat ->
+  compute_header m hc = (m1, hm) -> xor_ks c hc = (header, c1) ->
+  read_uint24 header = Some fsize ->
+  length fc = N.to_nat (fsize + pad16 fsize) -> length fm = 16%nat ->
+  frame_tag m1 fc <> fm ->
+  read_frame_s (mks c m) (hc ++ hm ++ fc ++ fm ++ rest) = Bad EBadFrameMAC.
+Proof.
+  try clear newcap_ge; try clear hsum_len; try clear snappy_dec_enc; try clear snappy_declen_enc; try clear cnext_byte; try clear snappy_dec_len.
+  intros L1 L2 E2 E1 Eu L3 L4 Hne. unfold Rlpx.read_frame_s. cbn [s_dec s_mac].
+  replace (hc ++ hm ++ fc ++ fm ++ rest) with ((hc ++ hm) ++ fc ++ fm ++ rest)
+    by (rewrite <- app_assoc; reflexivity).
+  rewrite (take_s_app (hc ++ hm)) by (rewrite app_length; lia).
+  assert (F1 : firstn 16 (hc ++ hm) = hc) by (rewrite <- L1; apply firstn_app_exact).
+  assert (F2 : skipn 16 (hc ++ hm) = hm) by (rewrite <- L1; apply skipn_app_exact).
+  rewrite F1, F2, E2, bytes_eqb_refl. cbn [negb]. rewrite E1, Eu.
+  rewrite (take_s_app fc) by exact L3. rewrite (take_s_app fm) by exact L4.
+  unfold frame_tag in Hne. destruct (compute_frame m1 fc) as [m2 wantf]. cbn [snd] in Hne.
+  rewrite (bytes_eqb_neq _ _ Hne). reflexivity.
+Qed.
+
+
+(* the ciphertext parts of the frame a writer in state w produces *)
+Definition frame_hc (w : wstate cst hst) (code : N) (data : list N) : list N :=
+  fst (xor_ks (w_enc _ _ w) (frame_header (int_size code + lenN data))).
+Definition frame_m1 (w : wstate cst hst) (code : N) (data : list N) : hst :=
+  fst (compute_header (w_mac _ _ w) (frame_hc w code data)).
+Definition frame_fc (w : wstate cst hst) (code : N) (data : list N) : list N :=
+  fst (xor_ks (snd (xor_ks (w_enc _ _ w) (frame_header (int_size code + lenN data))))
+              (frame_data code data)).
+
+Definition mac_collision_free (w : wstate cst hst) (code : N) (data : list N) : Prop :=
+  second_preimage_free (header_tag (w_mac _ _ w)) (frame_hc w code data) /\
+  second_preimage_free (frame_tag (frame_m1 w code data)) (frame_fc w code data).
+
+Definition mac_error_at (i : nat) : rerr :=
+  if (i <? 32)%nat then EBadHeaderMAC else EBadFrameMAC.
+
+Lemma tamper_frame_s w code data w' wire i v rest : code < 2 ^ 64 ->
+  write_frame w code data = Good (w', wire) ->
+  (i < length wire)%nat -> v <> nth i wire 0 ->
+  mac_collision_free w code data ->
+  read_frame_s (mks (w_enc _ _ w) (w_mac _ _ w)) (upd i v wire ++ rest) = Bad (mac_error_at i).
+Proof using Vars hsum_len.
+  try clear newcap_ge; try clear snappy_dec_enc; try clear snappy_declen_enc; try clear cnext_byte; try clear snappy_dec_len.
+  intros Hc H Hi Hv [SP1 SP2].
+  destruct (write_frame_parts _ _ _ _ _ H) as (c1 & m1 & hc & hm & fc & fm & Hle & E1 & E2 & E3 & E4 & ->).
+  set (fsize := int_size code + lenN data) in *.
+  unfold frame_m1, frame_fc, frame_hc in SP1, SP2. fold fsize in SP1, SP2.
+  rewrite E1 in SP1, SP2. cbn [fst snd] in SP1, SP2. rewrite E2 in SP2. cbn [fst] in SP2.
+  rewrite E3 in SP2. cbn [fst] in SP2.
+  pose proof (xor_ks_length (frame_header fsize) (w_enc _ _ w)) as L1.
+  rewrite E1 in L1. cbn in L1.
+  pose proof (xor_ks_length (frame_data code data) c1) as L3. rewrite E3 in L3. cbn [fst] in L3.
+  rewrite (frame_data_len code data Hc) in L3. fold fsize in L3.
+  assert (T2 : header_tag (w_mac _ _ w) hc = hm) by (unfold header_tag; now rewrite E2).
+  assert (T4 : frame_tag m1 fc = fm) by (unfold frame_tag; now rewrite E4).
+  assert (L2 : length hm = 16%nat) by (rewrite <- T2; apply header_tag_len).
+  assert (L4 : length fm = 16%nat) by (rewrite <- T4; apply frame_tag_len).
+  pose proof (xor_involutive (frame_header fsize) (w_enc _ _ w)) as I1. rewrite E1 in I1. cbn [fst snd] in I1.
+  rewrite !app_length in Hi. unfold mac_error_at.
+  destruct (Nat.lt_ge_cases i 16) as [C1|C1].
+  - (* header ciphertext *)
+    rewrite upd_app_l by lia. rewrite app_nth1 in Hv by lia.
+    destruct (Nat.ltb_spec i 32); [|lia]. rewrite <- !app_assoc.
+    apply bad_header_mac; [rewrite upd_length; exact L1|exact L2|].
+    intros E. rewrite <- T2 in E. apply SP1 in E; [|rewrite upd_length; reflexivity].
+    revert E. apply upd_neq; [lia|exact Hv].
+  - rewrite upd_app_r by lia. rewrite app_nth2 in Hv by lia. rewrite L1 in *.
+    destruct (Nat.lt_ge_cases i 32) as [C2|C2].
+    + (* header MAC *)
+      rewrite upd_app_l by lia. rewrite app_nth1 in Hv by lia.
+      destruct (Nat.ltb_spec i 32); [|lia]. rewrite <- !app_assoc.
+      apply bad_header_mac; [exact L1|rewrite upd_length; exact L2|].
+      rewrite T2. intros E. symmetry in E. revert E. apply upd_neq; [lia|exact Hv].
+    + destruct (Nat.ltb_spec i 32); [lia|].
+      rewrite upd_app_r by lia. rewrite app_nth2 in Hv by lia. rewrite L2 in *.
+      destruct (Nat.lt_ge_cases (i - 16 - 16) (length fc)) as [C3|C3].
+      * (* frame ciphertext *)
+        rewrite upd_app_l by lia. rewrite app_nth1 in Hv by lia. rewrite <- !app_assoc.
+        eapply bad_frame_mac; try eassumption.
+        -- unfold frame_header. apply read_put_uint24. exact Hle.
+        -- rewrite upd_length. exact L3.
+        -- intros E. rewrite <- T4 in E. apply SP2 in E; [|rewrite upd_length; reflexivity].
+           revert E. apply upd_neq; [lia|exact Hv].
+      * (* frame MAC *)
+        rewrite upd_app_r by lia. rewrite app_nth2 in Hv by lia. rewrite <- !app_assoc.
+        eapply bad_frame_mac; try eassumption.
+        -- unfold frame_header. apply read_put_uint24. exact Hle.
+        -- rewrite upd_length. exact L4.
+        -- rewrite T4. intros E. symmetry in E. revert E. apply upd_neq; [lia|exact Hv].
+Qed.
+
+(* a modified byte anywhere in frame number |ms| of a session: the |ms| earlier
+   messages are delivered, then the reader reports a MAC error — for every
+   fragmentation of the (modified) stream *)
+Lemma tamper_detected sn ms w w1 wire1 wszs code data w2 wire i v rest b fr k :
+  codes_ok ms -> write_msgs sn w ms = Good (w1, wire1, wszs) ->
+  code < 2 ^ 64 -> write_frame w1 code data = Good (w2, wire) ->
+  (i < length wire)%nat -> v <> nth i wire 0 ->
+  mac_collision_free w1 code data ->
+  rb_wf b -> rb_rem b fr = wire1 ++ upd i v wire ++ rest ->
+  norm_res (read_until (length ms + S k) sn (mkr (w_enc _ _ w) (w_mac _ _ w) b) fr) =
+  (delivered ms wszs, Some (mac_error_at i)).
+Proof using Vars newcap_ge hsum_len snappy_dec_enc snappy_declen_enc.
+  try clear cnext_byte; try clear snappy_dec_len.
+  intros Hok H Hc Hf Hi Hv Hm W E.
+  rewrite (read_until_stream _ sn (mkr (w_enc _ _ w) (w_mac _ _ w) b) fr W).
+  cbn [r_dec r_mac r_buf]. rewrite E.
+  rewrite (read_until_s_app sn ms w w1 wire1 wszs (S k) _ Hok H).
+  cbn [Rlpx.read_until_s]. unfold Rlpx.conn_read_s.
+  rewrite (tamper_frame_s w1 code data w2 wire i v rest Hc Hf Hi Hv Hm).
+  cbn. rewrite app_nil_r. unfold mac_error_at. destruct (i <? 32)%nat; reflexivity.
+Qed.
+
+(* ---- size limits ---- *)
+Lemma write_data_too_large sn w code data :
+  max_uint24 < lenN data -> conn_write sn w code data = Bad ETooLarge.
+Proof.
+  try clear newcap_ge; try clear hsum_len; try clear snappy_dec_enc; try clear snappy_declen_enc; try clear cnext_byte; try clear snappy_dec_len.
+  intros H. unfold Rlpx.conn_write. destruct (N.ltb_spec max_uint24 (lenN data)); [reflexivity|lia].
+Qed.
+
+Lemma write_frame_too_large w code data :
+  max_uint24 < int_size code + lenN data -> write_frame w code data = Bad ETooLarge.
+Proof.
+  try clear newcap_ge; try clear hsum_len; try clear snappy_dec_enc; try clear snappy_declen_enc; try clear cnext_byte; try clear snappy_dec_len.
+  intros H. unfold Rlpx.write_frame.
+  destruct (N.ltb_spec max_uint24 (int_size code + lenN data)); [reflexivity|lia].
+Qed.
+
+Lemma write_frame_ok_limit w code data w' wire :
+  write_frame w code data = Good (w', wire) -> int_size code + lenN data <= max_uint24.
+Proof.
+  try clear newcap_ge; try clear hsum_len; try clear snappy_dec_enc; try clear snappy_declen_enc; try clear cnext_byte; try clear snappy_dec_len.
+  intros H. destruct (write_frame_parts _ _ _ _ _ H) as (c1 & m1 & hc & hm & fc & fm & Hle & _). exact Hle.
+Qed.
+
+Lemma write_frame_total w code data :
+  int_size code + lenN data <= max_uint24 -> exists w' wire, write_frame w code data = Good (w', wire).
+Proof.
+  try clear newcap_ge; try clear hsum_len; try clear snappy_dec_enc; try clear snappy_declen_enc; try clear cnext_byte; try clear snappy_dec_len.
+  intros H. unfold Rlpx.write_frame.
+  destruct (N.ltb_spec max_uint24 (int_size code + lenN data)); [lia|].
+  destruct (xor_ks (w_enc _ _ w) _) as [hc c1]. destruct (compute_header _ hc) as [m1 hm].
+  destruct (xor_ks c1 _) as [fc c2]. destruct (compute_frame m1 fc) as [m2 fm]. eauto.
+Qed.
+
+Lemma conn_write_ok_limit sn w code data w' wire wsz :
+  conn_write sn w code data = Good (w', wire, wsz) ->
+  lenN data <= max_uint24 /\ int_size code + wsz <= max_uint24.
+Proof.
+  try clear newcap_ge; try clear hsum_len; try clear snappy_dec_enc; try clear snappy_declen_enc; try clear cnext_byte; try clear snappy_dec_len.
+  unfold Rlpx.conn_write. destruct (N.ltb_spec max_uint24 (lenN data)); [discriminate|].
+  destruct (write_frame w code _) as [[w1 wire1]|] eqn:E; [|discriminate].
+  intros H'. inversion H'; subst. split; [assumption|]. eapply write_frame_ok_limit. exact E.
+Qed.
+
+Hypothesis cnext_byte : forall c, fst (cnext c) < 256.
+
+Lemma lxor_byte a b : a < 256 -> b < 256 -> N.lxor a b < 256.
+Proof.
+  try clear newcap_ge; try clear hsum_len; try clear snappy_dec_enc; try clear snappy_declen_enc; try clear cnext_byte; try clear snappy_dec_len.
+  intros Ha Hb.
+  assert (H : forall x y, x < N.of_nat 256 -> y < N.of_nat 256 -> (N.lxor x y <? 256) = true).
+  { apply sweep2. vm_compute. reflexivity. }
+  apply N.ltb_lt. apply H; cbn; assumption.
+Qed.
+
+Lemma xor_ks_bytes d : forall c, bytesb d = true -> bytesb (fst (xor_ks c d)) = true.
+Proof using Vars cnext_byte.
+  try clear newcap_ge; try clear hsum_len; try clear snappy_dec_enc; try clear snappy_declen_enc; try clear snappy_dec_len.
+  unfold bytesb.
+  induction d as [|x d IH]; intros c Hb; cbn [Rlpx.xor_ks]; [reflexivity|].
+  cbn [forallb] in Hb. apply andb_true_iff in Hb as [Hx Hd].
+  pose proof (cnext_byte c) as Hk. destruct (cnext c) as [k c1]. cbn [fst] in Hk.
+  specialize (IH c1 Hd). destruct (xor_ks c1 d) as [out c2]. cbn [fst] in *.
+  cbn [forallb]. rewrite IH, andb_true_r. unfold byteb in *. apply N.ltb_lt. apply lxor_byte; [|exact Hk].
+  apply N.ltb_lt. exact Hx.
+Qed.
+
+Lemma read_uint24_bound b f : bytesb b = true -> read_uint24 b = Some f -> f <= max_uint24.
+Proof.
+  try clear newcap_ge; try clear hsum_len; try clear snappy_dec_enc; try clear snappy_declen_enc; try clear cnext_byte; try clear snappy_dec_len.
+  destruct b as [|b0 [|b1 [|b2 r]]]; cbn; try discriminate.
+  unfold byteb. intros H E. inversion E; subst. unfold max_uint24.
+  repeat (apply andb_true_iff in H as [? H]). lia.
+Qed.
+
+(* every frame the reader accepts is below 2^24 bytes, whatever is on the wire *)
+Lemma read_frame_limit r s frame r' rest : bytesb s = true ->
+  read_frame_s r s = Good (frame, r', rest) -> lenN frame <= max_uint24.
+Proof using Vars cnext_byte.
+  try clear newcap_ge; try clear hsum_len; try clear snappy_dec_enc; try clear snappy_declen_enc; try clear snappy_dec_len.
+  intros Hb. unfold Rlpx.read_frame_s, take_s.
+  destruct (32 <=? length s)%nat; [|discriminate].
+  destruct (compute_header (s_mac _ _ r) _) as [m1 want].
+  destruct (negb _); [discriminate|].
+  pose proof (xor_ks_bytes (firstn 16 (firstn 32 s)) (s_dec _ _ r)) as HB.
+  destruct (xor_ks (s_dec _ _ r) _) as [hp c1]. cbn [fst] in HB.
+  destruct (read_uint24 hp) as [fsize|] eqn:Eu; [|discriminate].
+  destruct (_ <=? _)%nat; [|discriminate]. destruct (_ <=? _)%nat; [|discriminate].
+  destruct (compute_frame m1 _) as [m2 wantf]. destruct (negb _); [discriminate|].
+  destruct (xor_ks c1 _) as [fp c2]. intros H. inversion H; subst.
+  assert (Hf : fsize <= max_uint24).
+  { eapply read_uint24_bound; [|exact Eu]. apply HB.
+    apply bytesb_firstn. apply bytesb_firstn. exact Hb. }
+  unfold lenN. rewrite firstn_length. lia.
+Qed.
+
+Hypothesis snappy_dec_len : forall x d, snappy_dec x = Some d -> snappy_declen x = Some (lenN d).
+
+(* with compression on, nothing longer than 2^24-1 bytes is ever delivered *)
+Lemma conn_read_limit r s code d wsz r' rest :
+  conn_read_s true r s = Good ((code, d, wsz), r', rest) -> lenN d <= max_uint24.
+Proof using Vars snappy_dec_len.
+  try clear newcap_ge; try clear hsum_len; try clear snappy_dec_enc; try clear snappy_declen_enc; try clear cnext_byte.
+  unfold Rlpx.conn_read_s. destruct (read_frame_s r s) as [[[frame r1] s1]|]; [|discriminate].
+  destruct (split_uint64 frame) as [[c data]|]; [|discriminate].
+  destruct (snappy_declen data) as [n|] eqn:En; [|discriminate].
+  destruct (N.ltb_spec max_uint24 n); [discriminate|].
+  destruct (snappy_dec data) as [d'|] eqn:Ed; [|discriminate].
+  intros H'. inversion H'; subst. apply snappy_dec_len in Ed. rewrite En in Ed.
+  inversion Ed; subst. assumption.
+Qed.
+
+End FramingProofs.
+Unset Default Proof Using.
+
+(* ================================================================= *)
+(* The MAC state as a chain: with the hash object modelled as "the bytes
+   absorbed so far" (hst = list N, Write = append, Sum = H of the list — what a
+   streaming hash computes, property C04), the MAC state after n frames contains
+   every frame ciphertext written before, and a frame produced at one position of
+   the chain cannot be accepted at another position unless the truncated hash
+   collides on two different inputs. *)
+Section MacChain.
+Variable cst : Type.
+Variable cnext : cst -> N * cst.
+Variable H : list N -> list N.
+Variable blk : list N -> list N.
+Variable snappy_enc : list N -> list N.
+Hypothesis blk_len : forall x, length (blk x) = 16%nat.
+Hypothesis H_len : forall m, length (H m) = 32%nat.
+
+Local Notation write_frame := (write_frame cst cnext (list N) (@app N) H blk).
+Local Notation write_msgs := (write_msgs cst cnext (list N) (@app N) H blk snappy_enc).
+Local Notation read_frame_s := (read_frame_s cst cnext (list N) (@app N) H blk).
+Local Notation header_tag := (header_tag (list N) (@app N) H blk).
+Local Notation inst L := (L cst cnext (list N) (@app N) H blk snappy_enc (fun _ : list N => @None N) (fun _ : list N => @None (list N)) Nat.add) (only parsing).
+
+Lemma xor_bytes_length a : forall b, length (xor_bytes a b) = Nat.min (length a) (length b).
+Proof. induction a as [|x a IH]; intros [|y b]; cbn; auto. Qed.
+
+(* the hash input whose truncated digest is the header MAC *)
+Definition header_pre (m hc : list N) : list N := m ++ xor_bytes (blk (firstn 16 (H m))) hc.
+
+Lemma header_tag_pre m hc : header_tag m hc = firstn 16 (H (header_pre m hc)).
+Proof. reflexivity. Qed.
+
+Lemma int_size_pos code : 1 <= int_size code.
+Proof. unfold int_size. destruct (code <? 128); lia. Qed.
+
+(* every frame strictly extends the absorbed history, by its whole ciphertext *)
+Lemma write_frame_mac_grows w code data w' wire : code < 2 ^ 64 ->
+  write_frame w code data = Good (w', wire) ->
+  exists fc buf1 buf2, w_mac _ _ w' = ((w_mac _ _ w ++ buf1) ++ fc) ++ buf2 /\ (1 <= length fc)%nat.
+Proof.
+  intros Hc Hw.
+  destruct (inst write_frame_parts _ _ _ _ _ Hw) as (c1 & m1 & hc & hm & fc & fm & Hle & E1 & E2 & E3 & E4 & ->).
+  pose proof (xor_ks_length cst cnext (frame_data code data) c1) as L3. rewrite E3 in L3. cbn [fst] in L3.
+  rewrite (frame_data_len code data Hc) in L3.
+  unfold compute_header, mac_compute in E2. inversion E2; subst m1.
+  unfold compute_frame, mac_compute in E4. inversion E4 as [[Em Ef]].
+  eexists fc, _, _. split; [reflexivity|].
+  pose proof (int_size_pos code). lia.
+Qed.
+
+Lemma write_frame_mac_lt w code data w' wire : code < 2 ^ 64 ->
+  write_frame w code data = Good (w', wire) -> (length (w_mac _ _ w) < length (w_mac _ _ w'))%nat.
+Proof.
+  intros Hc Hw. destruct (write_frame_mac_grows _ _ _ _ _ Hc Hw) as (fc & b1 & b2 & -> & Hl).
+  rewrite !app_length. lia.
+Qed.
+
+Lemma write_msgs_mac_le sn : forall ms w w' wire z, codes_ok ms ->
+  write_msgs sn w ms = Good (w', wire, z) -> (length (w_mac _ _ w) <= length (w_mac _ _ w'))%nat.
+Proof.
+  induction ms as [|[code data] ms IH]; intros w w' wire z Hok Hw.
+  - cbn in Hw. inversion Hw; subst. lia.
+  - cbn [Rlpx.write_msgs] in Hw. inversion Hok as [|? ? Hc Hok']; subst. cbn [fst] in Hc.
+    unfold conn_write in Hw. destruct (max_uint24 <? lenN data); [discriminate|].
+    destruct (write_frame w code _) as [[w1 wire1]|] eqn:E1; [|discriminate].
+    destruct (write_msgs sn w1 ms) as [[[w2 wires] zs]|] eqn:E2; [|discriminate].
+    inversion Hw; subst. pose proof (write_frame_mac_lt _ _ _ _ _ Hc E1).
+    pose proof (IH _ _ _ _ Hok' E2). lia.
+Qed.
+
+Lemma write_msgs_mac_lt sn ms w w' wire z : codes_ok ms -> ms <> [] ->
+  write_msgs sn w ms = Good (w', wire, z) -> (length (w_mac _ _ w) < length (w_mac _ _ w'))%nat.
+Proof.
+  destruct ms as [|[code data] ms]; [congruence|]. intros Hok _ Hw.
+  cbn [Rlpx.write_msgs] in Hw. inversion Hok as [|? ? Hc Hok']; subst. cbn [fst] in Hc.
+  unfold conn_write in Hw. destruct (max_uint24 <? lenN data); [discriminate|].
+  destruct (write_frame w code _) as [[w1 wire1]|] eqn:E1; [|discriminate].
+  destruct (write_msgs sn w1 ms) as [[[w2 wires] zs]|] eqn:E2; [|discriminate].
+  inversion Hw; subst. pose proof (write_frame_mac_lt _ _ _ _ _ Hc E1).
+  pose proof (write_msgs_mac_le sn _ _ _ _ _ Hok' E2). lia.
+Qed.
+
+(* "no collision of the truncated hash on these two inputs" *)
+Definition no_collision (a b : list N) : Prop := firstn 16 (H a) = firstn 16 (H b) -> a = b.
+
+(* a frame produced when the writer's MAC history was mW, presented to a reader
+   whose MAC history is mR of a different length (i.e. at another position of the
+   session: replayed, or after a dropped frame, or reordered) *)
+Lemma desync_detected c mR wW code data w' wire rest : code < 2 ^ 64 ->
+  write_frame wW code data = Good (w', wire) ->
+  length mR <> length (w_mac _ _ wW) ->
+  no_collision (header_pre mR (firstn 16 wire)) (header_pre (w_mac _ _ wW) (firstn 16 wire)) ->
+  read_frame_s (mks _ _ c mR) (wire ++ rest) = Bad EBadHeaderMAC.
+Proof.
+  intros Hc Hw Hlen Hnc.
+  destruct (inst write_frame_parts _ _ _ _ _ Hw) as (c1 & m1 & hc & hm & fc & fm & Hle & E1 & E2 & E3 & E4 & ->).
+  pose proof (xor_ks_length cst cnext (frame_header (int_size code + lenN data)) (w_enc _ _ wW)) as L1.
+  rewrite E1 in L1. cbn in L1.
+  assert (F : firstn 16 (hc ++ hm ++ fc ++ fm) = hc) by (rewrite <- L1; apply firstn_app_exact).
+  rewrite F in Hnc.
+  assert (T2 : hm = firstn 16 (H (header_pre (w_mac _ _ wW) hc))).
+  { unfold compute_header, mac_compute in E2. inversion E2. reflexivity. }
+  assert (L2 : length hm = 16%nat) by (rewrite T2, firstn_length, H_len; reflexivity).
+  rewrite <- !app_assoc. apply (inst bad_header_mac); [exact L1|exact L2|].
+  rewrite header_tag_pre, T2. intros E. apply Hnc in E.
+  apply (f_equal (@length N)) in E. unfold header_pre in E.
+  rewrite !app_length, !xor_bytes_length, !blk_len, L1 in E. lia.
+Qed.
+
+End MacChain.
+
+(* ================================================================= *)
+(* The handshake in the symbolic model *)
+Section HandshakeProofs.
+Variable key : Type.
+Variable point : Type.
+Variable pub_of : key -> point.
+Variable export_pub : point -> list N.
+Variable import_pub : list N -> option point.
+Variable ecdh : key -> point -> list N.
+Variable sign : key -> list N -> list N.
+Variable ecrecover : list N -> list N -> option point.
+Variable ecies_enc : point -> list N -> list N -> list N -> list N.
+Variable ecies_dec : key -> list N -> list N -> option (list N).
+Variable kec : list N -> list N.
+Variable enc_auth : list N -> list N -> list N -> list N.
+Variable dec_auth : list N -> option (list N * list N * list N).
+Variable enc_resp : list N -> list N -> list N.
+Variable dec_resp : list N -> option (list N * list N).
+
+Hypothesis ecdh_comm : forall a b, ecdh a (pub_of b) = ecdh b (pub_of a).
+Hypothesis import_export : forall p, import_pub (export_pub p) = Some p.
+Hypothesis recover_sign : forall k m, ecrecover m (sign k m) = Some (pub_of k).
+Hypothesis ecies_dec_enc : forall k r m s2, ecies_dec k (ecies_enc (pub_of k) r m s2) s2 = Some m.
+Hypothesis ecies_len : forall p r m s2, lenN (ecies_enc p r m s2) = lenN m + ecies_overhead.
+Hypothesis dec_enc_auth : forall s p n pad, dec_auth (enc_auth s p n ++ pad) = Some (s, p, n).
+Hypothesis dec_enc_resp : forall p n pad, dec_resp (enc_resp p n ++ pad) = Some (p, n).
+
+Local Notation seal := (seal_eip8 point ecies_enc).
+Local Notation read_msg := (read_msg key ecies_dec).
+Local Notation recipient_run :=
+  (recipient_run key point pub_of export_pub import_pub ecdh ecrecover ecies_enc ecies_dec kec dec_auth enc_resp).
+Local Notation initiator_auth := (initiator_auth key point pub_of export_pub ecdh sign ecies_enc enc_auth).
+Local Notation initiator_finish :=
+  (initiator_finish key point import_pub ecdh ecies_dec kec dec_resp).
+
+Lemma read_msg_seal k rnd plain padlen :
+  lenN (plain ++ repeat 0 padlen) + ecies_overhead <= 2048 ->
+  read_msg k (seal (pub_of k) rnd plain padlen) =
+  Good (plain ++ repeat 0 padlen, seal (pub_of k) rnd plain padlen).
+Proof.
+  intros Hs. unfold seal_eip8, Rlpx.read_msg, put_uint16. cbn [app].
+  set (body := plain ++ repeat 0 padlen) in *.
+  set (n := lenN body + ecies_overhead) in *.
+  set (ct := ecies_enc (pub_of k) rnd body [n / 256 mod 256; n mod 256]).
+  assert (Hn : n / 256 mod 256 * 256 + n mod 256 = n) by lia.
+  rewrite Hn.
+  destruct (N.ltb_spec 2048 n); [lia|].
+  assert (Hl : lenN ct = n) by (unfold ct; rewrite ecies_len; reflexivity).
+  destruct (N.ltb_spec (lenN ct) n); [lia|].
+  assert (Hf : firstn (N.to_nat n) ct = ct) by (apply firstn_all2; unfold lenN in Hl; lia).
+  rewrite Hf. unfold ct at 1. rewrite ecies_dec_enc. reflexivity.
+Qed.
+
+(* an honest run: both sides finish, each learns the other's static public key,
+   both derive the same AES and MAC secrets, and the MAC hash of each direction
+   starts from the same absorbed bytes on both ends *)
+Lemma handshake_learns_key prvI prvR nI nR ephI ephR rndI rndR padI padR :
+  let auth := initiator_auth prvI (pub_of prvR) nI ephI rndI padI in
+  lenN (enc_auth (sign ephI (xor_bytes (ecdh prvI (pub_of prvR)) nI)) (export_pub (pub_of prvI)) nI
+        ++ repeat 0 padI) + ecies_overhead <= 2048 ->
+  lenN (enc_resp (export_pub (pub_of ephR)) nR ++ repeat 0 padR) + ecies_overhead <= 2048 ->
+  exists resp sR sI,
+    recipient_run prvR auth nR ephR rndR padR = Good (resp, sR) /\
+    initiator_finish prvI (pub_of prvR) nI ephI auth resp = Good sI /\
+    sec_remote _ sR = pub_of prvI /\ sec_remote _ sI = pub_of prvR /\
+    sec_aes _ sI = sec_aes _ sR /\ sec_mac _ sI = sec_mac _ sR /\
+    sec_egress _ sI = sec_ingress _ sR /\ sec_ingress _ sI = sec_egress _ sR.
+Proof.
+  intros auth H1 H2. unfold auth, Rlpx.initiator_auth, Rlpx.recipient_run, Rlpx.initiator_finish.
+  rewrite (read_msg_seal prvR rndI _ padI H1).
+  rewrite dec_enc_auth, import_export.
+  rewrite (ecdh_comm prvR prvI), recover_sign.
+  eexists _, _, _. split; [reflexivity|].
+  rewrite (read_msg_seal prvI rndR _ padR H2).
+  rewrite dec_enc_resp, import_export.
+  split; [reflexivity|]. unfold derive. cbn [sec_remote sec_aes sec_mac sec_egress sec_ingress].
+  rewrite (ecdh_comm ephR ephI). repeat split; reflexivity.
+Qed.
+
+(* invalid curve points: a public key that importPublicKey rejects stops the
+   handshake on the side that decodes it, whatever else the packet contains *)
+Lemma offcurve_auth_rejected prvR packet plain exact sg pb n nR ephR rndR padR :
+  read_msg prvR packet = Good (plain, exact) -> dec_auth plain = Some (sg, pb, n) ->
+  import_pub pb = None ->
+  recipient_run prvR packet nR ephR rndR padR = Bad EHsInvalidPub.
+Proof.
+  intros H1 H2 H3. unfold Rlpx.recipient_run. rewrite H1, H2, H3. reflexivity.
+Qed.
+
+Lemma offcurve_resp_rejected prvI remote nI ephI auth packet plain exact pb n :
+  read_msg prvI packet = Good (plain, exact) -> dec_resp plain = Some (pb, n) ->
+  import_pub pb = None ->
+  initiator_finish prvI remote nI ephI auth packet = Bad EHsInvalidPub.
+Proof.
+  intros H1 H2 H3. unfold Rlpx.initiator_finish. rewrite H1, H2, H3. reflexivity.
+Qed.
+
+(* modified handshake packets: under ciphertext integrity of ECIES at the honest
+   packet (no other ciphertext / size prefix decrypts under this key), any packet
+   that differs from the honest one is rejected by readMsg *)
+Definition ecies_integrity (k : key) (honest : list N) : Prop :=
+  forall p0 p1 ct, p0 :: p1 :: ct <> honest -> ecies_dec k ct [p0; p1] = None.
+
+Lemma tampered_packet_rejected k honest packet :
+  ecies_integrity k honest -> lenN honest <= 2050 ->
+  length packet = length honest -> packet <> honest ->
+  exists e, read_msg k packet = Bad e.
+Proof.
+  intros Hint Hlen Hl Hne. unfold Rlpx.read_msg.
+  destruct packet as [|p0 [|p1 body]]; try (eexists; reflexivity).
+  destruct (2048 <? p0 * 256 + p1); [eexists; reflexivity|].
+  destruct (N.ltb_spec (lenN body) (p0 * 256 + p1)) as [|Hb]; [eexists; reflexivity|].
+  destruct (list_eq_dec N.eq_dec (p0 :: p1 :: firstn (N.to_nat (p0 * 256 + p1)) body) honest) as [E|E].
+  - (* the reader would consume exactly the honest packet: then the stream differs
+       only beyond it, impossible for equal lengths *)
+    exfalso. apply Hne. rewrite <- E in Hl |- *. cbn [length] in Hl.
+    assert (length body = length (firstn (N.to_nat (p0 * 256 + p1)) body)) by lia.
+    rewrite firstn_length in H. f_equal. f_equal. symmetry. apply firstn_all2. lia.
+  - rewrite (Hint _ _ _ E). eexists; reflexivity.
+Qed.
+
+End HandshakeProofs.
+
+(* ---- the executable instances: FIPS-197 appendix C vectors for Net/Aes.v ---- *)
+Definition aes_vectors_ok : bool :=
+  let pt := [0;17;34;51;68;85;102;119;136;153;170;187;204;221;238;255] in
+  bytes_eqb (enc_block (round_keys (map N.of_nat (seq 0 16))) pt)
+            [105;196;224;216;106;123;4;48;216;205;183;128;112;180;197;90] &&
+  bytes_eqb (enc_block (round_keys (map N.of_nat (seq 0 24))) pt)
+            [221;169;124;164;134;76;223;224;110;175;112;160;236;13;113;145] &&
+  bytes_eqb (enc_block (round_keys (map N.of_nat (seq 0 32))) pt)
+            [142;162;183;202;81;103;69;191;234;252;73;144;75;73;96;137].
+Lemma aes_vectors : aes_vectors_ok = true.
+Proof. vm_compute. reflexivity. Qed.
+
+(* ---- a concrete toy instance showing the hypotheses are jointly satisfiable
+   (used by the non-vacuity Example of Properties/C44.v; NOT cryptography) ---- *)
+Definition toy_next (c : N) : N * N := ((c * 7 + 3) mod 256, c + 1).
+Definition toy_sum (s : list N) : list N := firstn 32 (rev s ++ repeat 0 32).
+Definition toy_blk (_ : list N) : list N := repeat 0 16.
+Definition toy_id (d : list N) : list N := d.
+Definition toy_declen (d : list N) : option N := Some (lenN d).
+Definition toy_dec (d : list N) : option (list N) := Some d.
+Definition toy_cap (c n : nat) : nat := (c + n + 5)%nat.
+Definition toy_w0 : wstate N (list N) := mkw _ _ 9 [1; 2; 3].
+Definition toy_msgs : list (N * list N) :=
+  [(5, [1;2;3;4;5;6;7;8;9;10;11;12;13;14;15]); (300, []); (0, repeat 7 40)].
+Definition toy_cut : list nat := [1; 31; 0; 16; 17; 3; 90]%nat.
+
+Fixpoint cut_at (sizes : list nat) (wire : list N) : list (list N) :=
+  match sizes with
+  | [] => [wire]
+  | n :: r => firstn n wire :: cut_at r (skipn n wire)
+  end.
+
+Definition toy_check : bool :=
+  match write_msgs N toy_next (list N) (@app N) toy_sum toy_blk toy_id true toy_w0 toy_msgs with
+  | Bad _ => false
+  | Good (_, wire, wszs) =>
+      let rd w := read_until N toy_next (list N) (@app N) toy_sum toy_blk toy_declen toy_dec toy_cap
+                    4 true (mkr _ _ 9 [1; 2; 3] rb_empty) (cut_at toy_cut w) in
+      (* honest: the three messages, then EOF *)
+      (match rd wire with
+       | ([(5, d1, 15); (300, [], 0); (0, d3, 40)], Some e) =>
+           bytes_eqb d1 [1;2;3;4;5;6;7;8;9;10;11;12;13;14;15] && bytes_eqb d3 (repeat 7 40) &&
+           (rerr_code (norm_err e) =? 1)
+       | _ => false
+       end) &&
+      (* one modified byte in the payload of the second frame: first message, then MAC error *)
+      (match rd (upd 100 (N.lxor (nth 100 wire 0) 4) wire) with
+       | ([(5, _, 15)], Some EBadFrameMAC) => true
+       | _ => false
+       end) &&
+      (lenN wire =? 64 + 64 + 96)
+  end.
+Lemma toy_check_ok : toy_check = true.
+Proof. vm_compute. reflexivity. Qed.
+
+Lemma toy_collision_free :
+  mac_collision_free N toy_next (list N) (@app N) toy_sum toy_blk toy_w0 5
+    [1;2;3;4;5;6;7;8;9;10;11;12;13;14;15].
+Proof.
+  split; intros y Hl.
+  - vm_compute in Hl.
+    do 17 (destruct y as [|? y]; try discriminate Hl).
+    unfold header_tag, compute_header, mac_compute. cbv zeta. cbn [snd].
+    intros E. vm_compute in E. inversion E. reflexivity.
+  - vm_compute in Hl.
+    do 17 (destruct y as [|? y]; try discriminate Hl).
+    unfold frame_tag, compute_frame, mac_compute. cbv zeta. cbn [snd].
+    intros E. vm_compute in E. inversion E. reflexivity.
 Qed.
